@@ -20,6 +20,9 @@ func NewJavaIdentifierListener() *JavaIdentifierListener {
 	nodes = nil
 	currentNode = core_domain.NewDataStruct()
 	currentMethod = core_domain.NewJMethod()
+	imports = nil
+	isOverrideMethod = false
+	hasEnterClass = false
 	return &JavaIdentifierListener{}
 }
 
